@@ -6,11 +6,15 @@
 #include <chrono>
 #include "rt/rt.h"
 #include "draco/mesh/corner_table.h"
+#include "draco/mesh/mesh.h"
+#include "draco/mesh/mesh_attribute_corner_table.h"
 using namespace draco;
 static vrt::Out out;
 static long long n_run = 0, n_emit = 0, n_diff = 0;
 
-struct Obs { std::vector<int> opp, ctv, vc, par; int iso = 0, deg = 0; bool ok = false; double ms = 0; };
+// att_*: the attribute connectivity derived from the same table (MeshAttributeCornerTable::InitFromAttribute over a seam-free attribute):
+// att_inv = corners of non-degenerate faces without an attribute vertex, att_nv / att_maxv = number of attribute vertices / largest one in use
+struct Obs { std::vector<int> opp, ctv, vc, par; int iso = 0, deg = 0; bool ok = false; double ms = 0; bool att_ok = false; int att_inv = 0, att_nv = 0, att_maxv = -1; };
 static Obs run_ct(const std::vector<int> &F) {
   Obs o;
   IndexTypeVector<FaceIndex, CornerTable::FaceType> faces;
@@ -39,11 +43,34 @@ static Obs run_ct(const std::vector<int> &F) {
     o.par.push_back((int)ct->VertexParent(VertexIndex(ct->NumOriginalVertices() + i)).value());
   o.iso = ct->NumIsolatedVertices();
   o.deg = ct->NumDegeneratedFaces();
+  {
+    int maxid = 0;
+    for (int x : F) maxid = std::max(maxid, x);
+    Mesh mesh;
+    mesh.set_num_points(maxid + 1);
+    GeometryAttribute ga;
+    ga.Init(GeometryAttribute::POSITION, nullptr, 1, DT_INT32, false, 4, 0);
+    const int aid = mesh.AddAttribute(ga, true, maxid + 1);
+    for (int v = 0; v <= maxid; ++v) { const int32_t x = v; mesh.attribute(aid)->SetAttributeValue(AttributeValueIndex(v), &x); }
+    for (size_t i = 0; i + 2 < F.size(); i += 3) { Mesh::Face fc; fc[0] = PointIndex(F[i]); fc[1] = PointIndex(F[i + 1]); fc[2] = PointIndex(F[i + 2]); mesh.AddFace(fc); }
+    MeshAttributeCornerTable act;
+    o.att_ok = act.InitFromAttribute(&mesh, ct.get(), mesh.attribute(aid));
+    if (o.att_ok) {
+      o.att_nv = act.num_vertices();
+      for (int c = 0; c < (int)F.size(); ++c) {
+        const int f = c / 3;
+        const bool degenerate = F[3 * f] == F[3 * f + 1] || F[3 * f] == F[3 * f + 2] || F[3 * f + 1] == F[3 * f + 2];
+        const VertexIndex v = act.Vertex(CornerIndex(c));
+        if (v == kInvalidVertexIndex) { if (!degenerate) ++o.att_inv; }
+        else o.att_maxv = std::max(o.att_maxv, (int)v.value());
+      }
+    }
+  }
   return o;
 }
 static void emit(const std::vector<int> &F, const Obs &o, bool same, const char *src) {
   out.begin("CT").s("src", src).arr("f", F).b("ok", o.ok).arr("opp", o.opp).arr("ctv", o.ctv).arr("vc", o.vc).arr("par", o.par)
-      .i("iso", o.iso).i("deg", o.deg).b("same", same).i("ms", (long long)o.ms).end();
+      .i("iso", o.iso).i("deg", o.deg).b("same", same).i("ms", (long long)o.ms).b("att_ok", o.att_ok).i("att_inv", o.att_inv).i("att_nv", o.att_nv).i("att_maxv", o.att_maxv).end();
   ++n_emit;
 }
 
@@ -60,7 +87,7 @@ static int run_replay(const char *path, int mod) {
     const bool same = o.ok && o.opp == row["opp"].ints() && o.ctv == row["ctv"].ints() && o.vc == row["vc"].ints() &&
                       o.par == row["par"].ints() && o.iso == (int)row["iso"].n && o.deg == (int)row["deg"].n;
     if (!same) ++n_diff;
-    if (!same || (k++ % mod) == 0) emit(F, o, same, "replay");
+    if (!same || !o.att_ok || o.att_inv || o.att_maxv >= o.att_nv || (k++ % mod) == 0) emit(F, o, same, "replay");
   }
   fclose(f);
   fprintf(stderr, "STATS run=%lld emitted=%lld diff=%lld\n", n_run, n_emit, n_diff);
@@ -71,7 +98,7 @@ static void enum_rec(std::vector<int> &F, int nc, int maxid, uint64_t seed, uint
   if ((int)F.size() == nc) {
     const uint64_t h = vrt::fnv1a(F.data(), F.size() * sizeof(int), seed);
     const Obs o = run_ct(F);
-    if (!o.ok || h % stride == 0) emit(F, o, true, "enum4");
+    if (!o.ok || !o.att_ok || o.att_inv || o.att_maxv >= o.att_nv || h % stride == 0) emit(F, o, true, "enum4");
     return;
   }
   for (int v = 0; v <= std::min(4, maxid + 1); ++v) {
